@@ -82,13 +82,32 @@ def check(rep, tier, seed):
             if f % 3 == 0:
                 # whatever KIND of error the source fails with (an unexpected end of file is not an end of file)
                 cases.append("cnpy %s %s %d:%s" % (hx, fmt(rng.choice([[], [1] * L])), f, rng.choice(["eof", "pipe", "timeout", "invalid", "reset", "wouldblock"])))
+    # streams with bytes AFTER the values (one byte, one more value, another file's worth): an error under every schedule - in
+    # particular when a chunk ends exactly where the values end and the surplus only arrives with the next refill
+    surplus = []
+    for sh, vals, hx in hexes[:3] + hexes[3:5] + others[:2]:
+        for extra in ("00", "00" * 8, "0a", hx[:40]):
+            hx2 = hx + extra
+            surplus.append(hx2)
+            L = len(hx2) // 2
+            for sc in schedules(L, rng, exhaustive_first=True):
+                cases.append("cnpy %s %s -" % (hx2, fmt(sc)))
+            for k in (1, 2, 3, 8):
+                hdr_end = 10 + int.from_bytes(bytes.fromhex(hx[16:20]), "little") if hx[12:14] == "01" else None
+                if hdr_end:
+                    cases.append("cnpy %s %s -" % (hx2, fmt([hdr_end, len(hx) // 2 - hdr_end] + [k] * L)))
+                cases.append("cnpy %s %s -" % (hx2, fmt([len(hx) // 2] + [k] * L)))
     mo, outs = compare_cases(rep, "npy-chunked-read", cases, nontrivial=lambda c, m: c.split()[2] != "-",
                              classify=lambda c, m, i: "chunking:npy-read", spec=True, both_builds=(tier == "thorough"))
+    surplus_set = set(surplus)
     for c, o in zip(dict.fromkeys(cases), outs[False]):
         t = c.split()
         hx = t[1]
-        sh, vals = next((s, v) for s, v, h in hexes + others if h == hx)
-        want = "OK %s %s" % (fmt(sh), ",".join(tok(v) for v in vals)) if t[3] == "-" else "ERR"
+        if hx in surplus_set:
+            want = "ERR"
+        else:
+            sh, vals = next((s, v) for s, v, h in hexes + others if h == hx)
+            want = "OK %s %s" % (fmt(sh), ",".join(tok(v) for v in vals)) if t[3] == "-" else "ERR"
         if o != want:
             rep.fail(kind="property-oracle", cls="chunking:npy-read:" + ("schedule" if t[3] == "-" else "fault"), case=c[:300], observed=o[:200], expected=want[:200],
                      detail="npy read depends on the chunk schedule / a read failure did not surface")
